@@ -155,6 +155,15 @@ static JanetSlot opreduce(
         }
         return t;
     }
+    /* Operands from the third on are read after the first instruction ran, and that instruction can call an
+     * operator method (janet code) that assigns to a variable. Read such operands now, as a call would. */
+    for (i = 2; i < len; i++) {
+        if (args[i].flags & JANET_SLOT_MUTABLE) {
+            JanetSlot snapshot = janetc_farslot(c);
+            janetc_copy(c, snapshot, args[i]);
+            args[i] = snapshot;
+        }
+    }
     t = reduce_target(opts, args, 2);
     if (opim && can_slot_be_imm(args[1], &imm)) {
         janetc_emit_ssi(c, opim, t, args[0], imm, 1);
